@@ -66,7 +66,7 @@ def required(tier):
            'C02.M-psd', 'C02.form.list', 'C02.form.fortran',
            'C02.form.strided', 'C02.form.single', 'C02.form.int',
            'C02.form.prep-array', 'C02.form.prep-callable',
-           'C02.form.float32']}
+           'C02.form.float32', 'C02.form.float32-transform']}
 
 
 def run_case(spec, j):
@@ -244,17 +244,31 @@ def run_case(spec, j):
         j.close('C02.form.float32', est.pair_distance(P32)[ok32], ref32[ok32],
                 8 * e32 * Lf * nuv[ok32] + 1e-6 * np.abs(ref32[ok32]) +
                 1e-300, det)
+        # transform does no arithmetic in the input dtype: on float32 points
+        # it must equal transform of the same numbers held in float64
+        u32 = P32[:, 0]
+        t32 = np.asarray(est.transform(u32), dtype=float)
+        t64 = est.transform(u32.astype(np.float64))
+        bound = 8 * EPS * d * (np.abs(u32.astype(float)).dot(np.abs(L).T))
+        okt = np.isfinite(bound).all(axis=1) & (bound.max(axis=1,
+                                                          initial=0) < 1e300)
+        if okt.any():
+          j.close('C02.form.float32-transform', t32[okt], t64[okt],
+                  bound[okt] + 1e-300, det)
       for kind, (tw, mp) in twins.items():
         idx = offset + np.arange(2 * n).reshape(n, 2)
         before = mp.n_calls if mp is not None else 0
         got = tw.pair_distance(idx)
-        # (the twin is a separate fit: LFDA with n_components < d starts
-        # ARPACK from a random vector, which on ill-conditioned data moves
-        # distances by up to ~1e-10 relative)
-        # (relative to |L| |u - v|, not to d: for differences in the null
-        # space of the original L the twin's distance is its own L-noise)
-        j.close('C02.form.prep-' + kind, np.asarray(got)[sel], d1[sel],
-                1e-7 * (np.abs(d1[sel]) + Lf * nd[sel]) + tol_diff[sel], det)
+        # The twin is a separate fit (ARPACK start vectors, optimiser paths
+        # and BLAS kernels differ with the memory layout of what it was
+        # given), so the view "pairs as indices" is compared with the same
+        # twin's distances on the formed pairs; that the two fits agree is
+        # C05's business.
+        ref_tw = tw.pair_distance(pool[idx])
+        Ltw = np.linalg.norm(tw.components_)
+        j.close('C02.form.prep-' + kind, np.asarray(got)[sel], ref_tw[sel],
+                1e-12 * np.abs(ref_tw[sel]) + 64 * EPS * Ltw * nd[sel] +
+                1e-300, det)
         if mp is not None:
           j.check('C02.form.prep-consulted', mp.n_calls > before, det)
     offset += 2 * n
